@@ -151,3 +151,48 @@ Qed.
 
 Theorem encode_canonical t v : has_type v t = true -> encode t v = spec_encode t v.
 Proof. intro H. now apply canon_all. Qed.
+
+(* ---- Marshal (encode_go) agrees with the repaired encoder outside the some-enum guard *)
+Definition ego_value (v : value) : Prop :=
+  forall t, some_enum t v = false -> encode_go t v = encode t v.
+Definition ego_vals (vs : vals) : Prop :=
+  (forall t, some_enum_all t vs = false -> encode_go_all t vs = encode_all t vs) /\
+  (forall fs, some_enum_fields fs vs = false -> encode_go_fields fs vs = encode_fields fs vs).
+Definition ego_kvals (kvs : kvals) : Prop :=
+  forall kt vt, some_enum_kvs kt vt kvs = false -> encode_go_kvs kt vt kvs = encode_kvs kt vt kvs.
+
+Lemma ego_all : forall v, ego_value v.
+Proof.
+  apply (value_mut ego_value ego_vals ego_kvals); unfold ego_value, ego_vals, ego_kvals.
+  - intros n t _. destruct t; reflexivity.
+  - intros z t _. destruct t; reflexivity.
+  - intros b t _. destruct t; reflexivity.
+  - intros l t _. destruct t; reflexivity.
+  - intros t _. destruct t; reflexivity.
+  - intros v IH t H. destruct t; try reflexivity. cbn [some_enum] in H.
+    apply orb_false_elim in H as [E H]. cbn [encode_go encode].
+    destruct t; try discriminate E; rewrite (IH _ H); reflexivity.
+  - intros v IH t H. destruct t; try reflexivity. cbn [some_enum encode_go encode] in *. now rewrite IH.
+  - intros v IH t H. destruct t; try reflexivity. cbn [some_enum encode_go encode] in *. now rewrite IH.
+  - intros i v IH t H. destruct t; try reflexivity. cbn [some_enum encode_go encode] in *.
+    destruct (alt_lookup alts i); [|reflexivity]. now rewrite IH.
+  - intros vs [IHa IHf] t H. destruct t; try reflexivity; cbn [some_enum encode_go encode] in *.
+    + now apply IHa.
+    + now rewrite IHa.
+    + now apply IHf.
+  - intros kvs IH t H. destruct t; try reflexivity. cbn [some_enum encode_go encode] in *. now rewrite IH.
+  - split; intros; reflexivity.
+  - intros v IHv r [IHa IHf]. split.
+    + intros t H. cbn [some_enum_all encode_go_all encode_all] in *. apply orb_false_elim in H as [H1 H2].
+      now rewrite IHv, IHa.
+    + intros fs H. destruct fs as [|tag t fr]; [reflexivity|].
+      cbn [some_enum_fields encode_go_fields encode_fields] in *. apply orb_false_elim in H as [H1 H2].
+      now rewrite IHv, IHf.
+  - intros; reflexivity.
+  - intros k IHk v IHv r IHr kt vt H. cbn [some_enum_kvs encode_go_kvs encode_kvs] in *.
+    apply orb_false_elim in H as [H H3]. apply orb_false_elim in H as [H1 H2].
+    now rewrite IHk, IHv, IHr.
+Qed.
+
+Theorem encode_go_encode t v : some_enum t v = false -> encode_go t v = encode t v.
+Proof. intro H. now apply ego_all. Qed.
